@@ -192,7 +192,8 @@ func (P *Program) verify(fn *ssa.Function, timeoutMs int, par int, keepDir strin
 		return false
 	}
 	if hasCand(vc) {
-		for round := 0; round < 10; round++ {
+		converged := false
+		for round := 0; round < 25; round++ {
 			var cands []*Oblig
 			for _, o := range vc.obligs {
 				if o.cand != nil {
@@ -203,6 +204,13 @@ func (P *Program) verify(fn *ssa.Function, timeoutMs int, par int, keepDir strin
 			sub := &VC{P: P, tt: vc.tt, items: vc.items, obligs: cands}
 			sub.dischargeWith(2000, 8, "", []string{"z3-new", "cvc5"})
 			dropped := 0
+			if trace {
+				for _, o := range cands {
+					if strings.Contains(o.Name, "even") {
+						fmt.Fprintf(os.Stderr, "    cand %s -> %s (pc %s)\n", o.Name, o.Status, o.pc.S)
+					}
+				}
+			}
 			for _, o := range cands {
 				if o.Status != "unsat" && !o.cand.dropped {
 					o.cand.dropped = true
@@ -210,11 +218,20 @@ func (P *Program) verify(fn *ssa.Function, timeoutMs int, par int, keepDir strin
 				}
 			}
 			if dropped == 0 {
+				converged = true
 				break
 			}
 			vc = P.genVC(fn, genOpts{houdini: true, houdiniCheck: true, autoInv: autoInv, noInline: noInline})
 			if vc.err != nil {
 				return vc
+			}
+		}
+		if !converged {
+			// no fixpoint within the budget: none of the remaining candidates is validated
+			for _, cs := range autoInv {
+				for _, c := range cs {
+					c.dropped = true
+				}
 			}
 		}
 		vc = P.genVC(fn, genOpts{houdini: true, houdiniCheck: false, autoInv: autoInv, noInline: noInline})
@@ -263,6 +280,47 @@ func (vc *VC) checkVacuity() {
 	if len(vc.exitReach) == 0 {
 		vc.Vacuity = "no-exit"
 		return
+	}
+	if os.Getenv("VC_REACH") != "" {
+		// per-return reachability report (debugging aid)
+		for i, r := range vc.exitReach {
+			var b strings.Builder
+			b.WriteString(vc.tt.preamble())
+			for j := 0; j < vc.exitIdx[i] && j < len(vc.items); j++ {
+				if vc.items[j].ob != nil {
+					continue
+				}
+				b.WriteString(vc.items[j].text)
+				b.WriteByte('\n')
+			}
+			fmt.Fprintf(&b, "(assert %s)\n(check-sat)\n", r.S)
+			res := raceSolve(map[string]string{"z3": b.String()}, "reach", 5000, false, []string{"z3-new"})
+			fmt.Fprintf(os.Stderr, "  return #%d at %s: %s\n", i+1, vc.exitPos[i], res.status)
+		}
+		seen := map[string]bool{}
+		for _, o := range vc.obligs {
+			if seen[o.pc.S] {
+				continue
+			}
+			seen[o.pc.S] = true
+			var b strings.Builder
+			b.WriteString(vc.tt.preamble())
+			for j := 0; j < o.itemIdx; j++ {
+				if vc.items[j].ob != nil {
+					continue
+				}
+				b.WriteString(vc.items[j].text)
+				b.WriteByte('\n')
+			}
+			fmt.Fprintf(&b, "(assert %s)\n(check-sat)\n", o.pc.S)
+			res := raceSolve(map[string]string{"z3": b.String()}, "reach", 5000, false, []string{"z3-new"})
+			if res.status != "sat" {
+				fmt.Fprintf(os.Stderr, "  path of %s (line %d): %s\n", o.Name, o.Pos.Line, res.status)
+				if d := os.Getenv("VC_REACH_DUMP"); d != "" {
+					os.WriteFile(d, []byte(b.String()), 0o644)
+				}
+			}
+		}
 	}
 	var b strings.Builder
 	b.WriteString("(set-option :smt.mbqi true)\n")
